@@ -248,8 +248,10 @@ func c16RunRow(t c16Fataler, base, exe string, r c16Row) {
 		time.Sleep(2 * time.Millisecond)
 	}
 	{
-		// every spawned process must be one of the logged ones (it is this binary)
-		_, spawned := c16ReadLog(logPath)
+		// every spawned process must be one of the logged ones (it is this binary). All processes have exited:
+		// the log is complete now (the copy read inside the loop may predate the last child's line).
+		var spawned []int
+		procs, spawned = c16ReadLog(logPath)
 		logged := map[int]bool{}
 		for _, p := range procs {
 			logged[p.pid] = true
